@@ -134,10 +134,18 @@ def interrupted_lookups(ev, env, ops):
     old = sys.getrecursionlimit()
     exp = canon(VARS, env)
     for lim in range(depth + 2, depth + 16):
+        partial = None
         try:
             sys.setrecursionlimit(lim)
             for v in ev:
-                impl.engine.get_value(v)
+                r = impl.engine.get_value(v)
+                sys.setrecursionlimit(old)
+                # a lookup that RETURNS under a low limit returns the value, not a part of it
+                nm = {}
+                if raw(r, nm) != canon([VARS[ev.index(v)]], env)[0]:
+                    partial = (VARS[ev.index(v)][1], raw(r, {}))
+                    break
+                sys.setrecursionlimit(lim)
                 impl.engine.to_python(v) if not _partial(v) else None
         except RecursionError:
             pass
@@ -145,6 +153,9 @@ def interrupted_lookups(ev, env, ops):
             pass
         finally:
             sys.setrecursionlimit(old)
+        if partial is not None:
+            return ('violation', 'lookup-returns-partial-value', 'operations: %s\nunder recursion limit %d (stack depth %d) get_value(%s) RETURNED %r instead of raising or returning the value; the active bindings are %r'
+                    % (describe(ops), lim, depth, partial[0], partial[1], exp))
         names = {}
         got = tuple(raw(impl.engine.get_value(v), names) for v in ev)
         if got != exp:
